@@ -46,6 +46,7 @@ func allProps() []*PropSpec {
 		propC11(),
 		propC05(),
 		propC17(),
+		propC02(),
 	}
 }
 
@@ -467,6 +468,28 @@ func propC17() *PropSpec {
 			js = append(js, jobsN("css", "VerifCSSColorName", []int{0}, "every CSS colour keyword through css.Minify")...)
 			js = append(js, jobsN("xml", "VerifXMLEntities", []int{0}, "xml entity tables")...)
 			js = append(js, Job{Pkg: "html", Fn: "VerifHTMLTwin", N: 0, ExpectFail: true, Desc: "vacuity twin"})
+			return js
+		},
+	}
+}
+
+func propC02() *PropSpec {
+	return &PropSpec{
+		ID:   "C02",
+		Rule: "one case = one feasible path of (a) getName/getIndex on a symbolic index (all names of one to three characters, both alphabets), (b) js.Minify with and without KeepVarNames on programs of nested function/arrow/for-let/catch/with scopes generated from symbolic choices, free variables named like the first short names the renamer hands out; the dependency's parser resolves both outputs and the occurrence-to-binding partitions must coincide; non-trivial = completes with a distinct symbolic output",
+		Assumptions: []string{"scope shapes of the generators in harness/js/rename.go (one function with two statements out of var/use/for-let/nested/with/try-catch; chains of three nested functions)", "paths on which the two modes differ in structure (identifier counts) are assumed away", "binding resolution of the dependency's parser is trusted"},
+		Outside:     []string{"classes, methods, destructuring and default parameters, labels, import/export names, switch scopes", "scopes with more bindings than one- and two-character names (covered only through the getName/getIndex lemma up to three characters)", "property names (never identifiers in the generators)"},
+		Stubs:       []string{"sort.Slice/sort.Sort interpreted or modelled", "fmt native"},
+		Jobs: func(tier string) []Job {
+			var js []Job
+			if tier == "quick" {
+				js = append(js, jobsN("js", "VerifJSGetName", []int{2}, "getName/getIndex on all one- and two-character indices")...)
+			} else {
+				js = append(js, jobsN("js", "VerifJSGetName", []int{2, 3}, "getName/getIndex on all indices up to three characters")...)
+			}
+			js = append(js, jobsN("js", "VerifJSRename", []int{0}, "one function/arrow with two statements, with-statement symbolic")...)
+			js = append(js, jobsN("js", "VerifJSRenameChain", []int{0}, "three nested functions with symbolic uses/declarations per level")...)
+			js = append(js, Job{Pkg: "js", Fn: "VerifJSEvalTwin", N: 0, ExpectFail: true, Desc: "vacuity twin"})
 			return js
 		},
 	}
